@@ -318,7 +318,7 @@ def run_shard(item):
     _, tag, tier, fam, k, n = item
     seen = set()
     for prog in c08.programs(tier, fam, k, n):
-        if isinstance(prog, tuple) or c08.has_qprint(prog.skeleton):
+        if isinstance(prog, tuple):
             continue
         if fam == 'stat' and len(prog.toks) > (9 if tier == 'quick' else 14):
             continue
